@@ -72,6 +72,7 @@ func (c *Ctx) loadAt(st *State, base, ref, nm string, ft types.Type) Val {
 		return MapV{Len: ln, Nil: nl, Keys: c.defRaw(nm+"_keys", ks, c.heapGet(st, base+".keys", ks, ref)), Vals: c.defRaw(nm+"_vals", vs, c.heapGet(st, base+".vals", vs, ref)), KeyT: t.Key(), ValT: t.Elem(), Id: id}
 	case *types.Pointer:
 		r := c.defRaw(nm+"_ref", "Int", c.heapGet(st, base, "Int", ref))
+		c.assumeRef(r)
 		nt, _ := t.Elem().(*types.Named)
 		if _, isSlice := t.Elem().Underlying().(*types.Slice); isSlice || isMapType(t.Elem()) {
 			// pointer to a container (list/map wrappers): cell identity
@@ -85,6 +86,7 @@ func (c *Ctx) loadAt(st *State, base, ref, nm string, ft types.Type) Val {
 		tag := c.defRaw(nm+"_tag", "Int", c.heapGet(st, base+".tag", "Int", ref))
 		r := c.defRaw(nm+"_wref", "Int", c.heapGet(st, base+".ref", "Int", ref))
 		c.assume(and("(>= "+tag+" 0)", implies("(= "+tag+" 0)", "(= "+r+" 0)")))
+		c.assumeRef(r)
 		return IfaceV{Tag: tag, Ref: r, T: ft}
 	}
 	return OpaqueV{T: ft}
@@ -104,7 +106,7 @@ func (c *Ctx) storeField(st *State, p PtrV, f string, v Val, pos string) {
 	case ListV:
 		prov = x.Prov
 	}
-	c.stores = append(c.stores, StoreRec{Key: fieldBase(p, f), Ref: p.Ref, Guard: st.guard, Prov: prov, Pos: pos})
+	c.stores = append(c.stores, StoreRec{Key: fieldBase(p, f), Ref: p.Ref, Guard: st.guard, Prov: prov, Pos: pos, TPos: c.curPos})
 	c.storeAt(st, fieldBase(p, f), p.Ref, ft, v)
 }
 
@@ -312,7 +314,7 @@ func (c *Ctx) listElem(st *State, lv ListV, j string) Val {
 func (c *Ctx) valueOfID(st *State, id string, t types.Type) Val {
 	switch u := t.Underlying().(type) {
 	case *types.Pointer:
-		c.assume("(>= " + id + " 0)")
+		c.assumeRef(id)
 		nt, _ := u.Elem().(*types.Named)
 		return PtrV{Ref: id, Named: nt}
 	case *types.Basic:
@@ -395,4 +397,10 @@ func (c *Ctx) keyID(st *State, k Val) string {
 		return x.T
 	}
 	return c.idOfValue(st, k)
+}
+
+// assumeRef: a reference read from the heap is nil (0), an object that existed at entry (> 0), or one of the
+// allocations made so far (the negative literals -1 … -allocN); it can never alias a future allocation.
+func (c *Ctx) assumeRef(r string) {
+	c.assume(fmt.Sprintf("(>= %s (- %d))", r, c.allocN))
 }
